@@ -67,6 +67,10 @@ def _record_traces(args):
             n += 1
             templates = {replay.conc(k): replay.conc(v) for k, v in rec["templates"]}
             env = replay.make_env(rec["cfg"], loader=DictLoader(dict(templates)))
+            # (the recorded execution is one of the real code under a loop limit: a range of a million items is cut
+            # short by LoopIterationLimitError - an exit through an error, which the clauses cover - instead of taking minutes)
+            if getattr(env, "loop_iteration_limit", None) is None:
+                env.loop_iteration_limit = 5000
             try:
                 t = env.from_string(templates[replay.conc(rec["main"])], name="main")
             except Exception:  # noqa: BLE001
